@@ -83,7 +83,7 @@ pub fn run(ctx: &mut Ctx) {
     let cfg = GenCfg::standard();
     let n = ctx.n(400, 25_000);
     let cases = matcher_cases(prop, ctx, &cfg, n);
-    ctx.ev.rule = "each corpus/fixture/generated ledger × {3 random permutations of its lines, 1 random fill-splitting of a BUY/SELL (same Σq, Σq·p, Σfees; BUY fills scattered among other lines)}: the implementation's reports must agree with the base ledger's (legs exactly when no (date, security) has ≥ 2 SELL lines, otherwise per (rule, acquisition date)); base report also compared with the Lean model. Known-finding class multiSellDay (D17) is probed with its witness in two line orders. File partitions: through the real CLI, the lines spread over 2–3 files (LF or CRLF, with or without a final newline, possibly ending in a comment) against the single file. Non-trivial = accepted ledger with ≥ 2 lines sharing a date; distinct by ledger text.".into();
+    ctx.ev.rule = "each corpus/fixture/generated ledger × {3 random permutations of its lines, 1 random fill-splitting of a BUY/SELL (same Σq, Σq·p, Σfees; BUY fills scattered among other lines)}: the implementation's reports must agree with the base ledger's (legs exactly when no (date, security) has ≥ 2 SELL lines, otherwise per (rule, acquisition date)); base report also compared with the Lean model. Known-finding class multiSellDay (D17) is probed with its witness in two line orders. File partitions: through the real CLI, the lines spread over 2–3 files (LF or CRLF, with or without a final newline, possibly ending in a comment; half the time with one trade recorded as two identical adjacent fills) against the single file. Non-trivial = accepted ledger with ≥ 2 lines sharing a date; distinct by ledger text.".into();
     let ex = run_impl::wide_exemptions();
     let mut r = Rng::new(ctx.seed ^ 0xC06);
     let mut cli_budget: i64 = if ctx.tier == Tier::Quick { 10 } else { 120 };
@@ -143,7 +143,24 @@ pub fn run(ctx: &mut Ctx) {
         if crate::cli::available() && cli_budget > 0 && base.is_ok() && l.len() >= 3 {
             cli_budget -= 1;
             ctx.ev.count("cli-file-partitions");
-            let lines: Vec<String> = l.iter().map(|t| t.dsl()).collect();
+            // half the time one trade is first recorded as two identical fills on adjacent lines (same
+            // quantity, price and fees): two equal lines are two trades, however the lines are dealt
+            let mut lcli = l.clone();
+            if r.chance(1, 2) {
+                let idx: Vec<usize> = lcli.iter().enumerate().filter(|(_, t)| matches!(t.kind, Kind::Buy | Kind::Sell)).map(|(i, _)| i).collect();
+                if !idx.is_empty() {
+                    let i = *r.pick(&idx);
+                    let mut h = lcli[i].clone();
+                    h.a = (h.a / Decimal::TWO).normalize();
+                    h.c = (h.c / Decimal::TWO).normalize();
+                    if h.a * Decimal::TWO == lcli[i].a && h.c * Decimal::TWO == lcli[i].c && h.a.scale() <= 8 {
+                        lcli[i] = h.clone();
+                        lcli.insert(i + 1, h);
+                        ctx.ev.count("cli-file-partitions:identical-fills");
+                    }
+                }
+            }
+            let lines: Vec<String> = lcli.iter().map(|t| t.dsl()).collect();
             let sc = crate::cli::Scratch::new();
             sc.write("all.cgt", &(lines.join("\n") + "\n"));
             let k = 2 + r.below(2) as usize;
@@ -170,7 +187,7 @@ pub fn run(ctx: &mut Ctx) {
             let strip = |o: &crate::cli::CliOut| -> Option<(serde_json::Value, serde_json::Value)> { let v: serde_json::Value = serde_json::from_slice(&o.stdout).ok()?; Some((v["tax_years"].clone(), v["holdings"].clone())) };
             let same = one.code == many.code && (one.code != Some(0) || strip(&one) == strip(&many));
             if !same {
-                ctx.ev.violation("oracle", format!("spreading the lines over {} files changes the outcome: single file exit {:?}, several files exit {:?} ({})", names.len(), one.code, many.code, many.stderr.lines().next().unwrap_or("reports differ")), replay_text(prop, "oracle: cgt-tool report part0.cgt part1.cgt … vs cgt-tool report all.cgt; files as described (no final newline unless style 0)", "file partition", &l, &layout));
+                ctx.ev.violation("oracle", format!("spreading the lines over {} files changes the outcome: single file exit {:?}, several files exit {:?} ({})", names.len(), one.code, many.code, many.stderr.lines().next().unwrap_or("reports differ")), replay_text(prop, "oracle: cgt-tool report part0.cgt part1.cgt … vs cgt-tool report all.cgt; files as described (no final newline unless style 0)", "file partition", &lcli, &layout));
             }
         }
         // correspondence on the base ledger
